@@ -1,6 +1,7 @@
 //! Engine binary `e_query`: one module per property. See /verif/DESIGN.md.
 use vmon::report::parse_args;
 
+mod core;
 mod c12;
 mod c16;
 mod c19;
